@@ -658,3 +658,92 @@ impl From<Receiver> for ReceiverStream {
         Self::new(recv)
     }
 }
+
+/// Verification hooks (add-only, compiled only with `--cfg remoc_verif`).
+#[cfg(remoc_verif)]
+#[allow(missing_docs, private_interfaces, dead_code, clippy::all)]
+pub mod verif_hooks {
+    use super::*;
+    use crate::chmux::credit::verif_hooks as credit_hooks;
+
+    pub enum PortReceiveView {
+        Data { buf: Bytes, first: bool, last: bool, credit: u32 },
+        PortRequests { requests: Vec<Request>, first: bool, last: bool, credit: u32 },
+        Finished,
+    }
+
+    pub fn port_receive_view(msg: PortReceiveMsg) -> PortReceiveView {
+        match msg {
+            PortReceiveMsg::Data(ReceivedData { buf, first, last, credit }) => {
+                PortReceiveView::Data { buf, first, last, credit: credit_hooks::used_credit_value(&credit) }
+            }
+            PortReceiveMsg::PortRequests(ReceivedPortRequests { requests, first, last, credit }) => {
+                PortReceiveView::PortRequests {
+                    requests,
+                    first,
+                    last,
+                    credit: credit_hooks::used_credit_value(&credit),
+                }
+            }
+            PortReceiveMsg::Finished => PortReceiveView::Finished,
+        }
+    }
+
+    pub fn recv_msg_data(buf: Bytes, first: bool, last: bool, credit: u32) -> PortReceiveMsg {
+        PortReceiveMsg::Data(ReceivedData { buf, first, last, credit: credit_hooks::used_credit(credit) })
+    }
+
+    pub fn recv_msg_ports(requests: Vec<Request>, first: bool, last: bool, credit: u32) -> PortReceiveMsg {
+        PortReceiveMsg::PortRequests(ReceivedPortRequests {
+            requests,
+            first,
+            last,
+            credit: credit_hooks::used_credit(credit),
+        })
+    }
+
+    pub fn recv_msg_finished() -> PortReceiveMsg {
+        PortReceiveMsg::Finished
+    }
+
+    #[allow(clippy::too_many_arguments)]
+    pub fn receiver_new(
+        local_port: u32, remote_port: u32, max_data_size: usize, max_port_count: usize,
+        tx: mpsc::Sender<PortEvt>, rx: mpsc::UnboundedReceiver<PortReceiveMsg>, credits: ChannelCreditReturner,
+        port_allocator: PortAllocator, storage: AnyStorage,
+    ) -> Receiver {
+        Receiver::new(
+            local_port,
+            remote_port,
+            max_data_size,
+            max_port_count,
+            tx,
+            rx,
+            credits,
+            port_allocator,
+            storage,
+        )
+    }
+
+    /// 0 = Nothing, 1 = Data, 2 = Chunks, 3 = Requests; then (buffered parts, buffered bytes/requests, completed).
+    pub fn receiver_state(r: &Receiver) -> (u8, usize, usize, bool) {
+        match &r.receiving {
+            Receiving::Nothing => (0, 0, 0, false),
+            Receiving::Data(d) => (1, d.bufs.len(), d.remaining, false),
+            Receiving::Chunks { chunks, completed } => {
+                (2, chunks.len(), chunks.iter().map(|c| c.len()).sum(), *completed)
+            }
+            Receiving::Requests(reqs) => (3, reqs.len(), reqs.len(), false),
+        }
+    }
+
+    /// (closed, finished)
+    pub fn receiver_flags(r: &Receiver) -> (bool, bool) {
+        (r.closed, r.finished)
+    }
+
+    /// (to_return, a deferred return future is pending) of the receiver's credit returner.
+    pub fn receiver_returner_state(r: &Receiver) -> (u32, bool) {
+        credit_hooks::returner_state(&r.credits)
+    }
+}
